@@ -93,6 +93,9 @@ static int do_call(int m, int f, int a, int b)
   case 2: return mocks[m]->f(std::string("s") + std::to_string(a));
   case 3: { Mock const& cm = *mocks[m]; return cm.g(a, b); }
   case 4: mocks[m]->v(a); return 0;
+  case 5: return mocks[m]->z();
+  case 6: return mocks[m]->h(a, b, b);
+  case 7: { std::string r = mocks[m]->q(a); return r.size() > 1 && r[0] == 'r' ? std::atoi(r.c_str() + 1) : -77; }
   }
   return -1;
 }
@@ -102,7 +105,7 @@ void nested_call(int slot)
 {
   // a side effect that calls a mock function (the global lock is recursive); nesting is limited to one level
   auto& n = cfg[slot].nest;
-  if (nest_depth > 0 || n[1] < 1 || n[1] > 4) return;
+  if (nest_depth > 0 || n[1] < 1 || n[1] > 7) return;
   if (n[0] == NM_ID) { if (!nmock || n[1] != 1) return; }
   else if (n[0] == WM_ID) { if (!wmock || n[1] != 1) return; }
   else if (n[0] < 0 || n[0] >= NMOCK || !mocks[n[0]]) return;
